@@ -23,6 +23,7 @@ func c18(r *core.Report) {
 	c18Nullable(r)
 	c18Rec(r)
 	c18Dominance(r)
+	c18PtrNull(r)
 }
 
 // kind ranges: what encoding/json can emit for a value of the kind (as numbers).
@@ -629,6 +630,119 @@ func c18Dominance(r *core.Report) {
 				why += "; the comparison at " + depthUnreach + " is not reachable from the exported API"
 			}
 			r.Bad("dominance:depth", at, why)
+		}
+	})
+}
+
+// c18PtrNull: wherever the generator strips a pointer level from the type it is generating a schema
+// for, it has to remember that the value may be null (a nil pointer is encoded as null).
+func c18PtrNull(r *core.Report) {
+	p := r.Prog
+	info := p.Pkg("openapi3gen").TypesInfo
+	r.RunRule("C18.ptrnull", "a stripped pointer is remembered as nullable: in every function of openapi3gen that returns a *SchemaRef and steps from a pointer type to its element (`t.Elem()` under `Kind() == reflect.Ptr` / `case reflect.Ptr`), the stripping code records it — it assigns a variable that the function later stores into a schema's Nullable, or sets Nullable itself; a pointer level dropped silently yields a schema that rejects the null which encoding/json emits for a nil pointer", 2, func() {
+		n := 0
+		for _, d := range p.AllDecls("openapi3gen") {
+			if d.Body == nil || d.Type.Results == nil {
+				continue
+			}
+			returnsRef := false
+			for _, res := range d.Type.Results.List {
+				if nn := core.NamedOf(info.TypeOf(res.Type)); nn != nil && nn.Obj().Name() == "SchemaRef" {
+					returnsRef = true
+				}
+			}
+			if !returnsRef {
+				continue
+			}
+			// variables stored into a Nullable field somewhere in the function
+			nullVars := map[types.Object]bool{}
+			ast.Inspect(d.Body, func(nd ast.Node) bool {
+				as, ok := nd.(*ast.AssignStmt)
+				if !ok {
+					return true
+				}
+				for i, l := range as.Lhs {
+					if sel, ok := ast.Unparen(l).(*ast.SelectorExpr); ok && sel.Sel.Name == "Nullable" && i < len(as.Rhs) {
+						if id, ok := ast.Unparen(as.Rhs[i]).(*ast.Ident); ok {
+							nullVars[info.ObjectOf(id)] = true
+						}
+					}
+				}
+				return true
+			})
+			isPtrTest := func(e ast.Expr) bool {
+				found := false
+				ast.Inspect(e, func(m ast.Node) bool {
+					if sel, ok := m.(*ast.SelectorExpr); ok && sel.Sel.Name == "Ptr" {
+						if id, ok := sel.X.(*ast.Ident); ok && id.Name == "reflect" {
+							found = true
+						}
+					}
+					return true
+				})
+				return found
+			}
+			var sites []ast.Node // bodies guarded by a pointer-kind test
+			ast.Inspect(d.Body, func(nd ast.Node) bool {
+				switch x := nd.(type) {
+				case *ast.ForStmt:
+					if x.Cond != nil && isPtrTest(x.Cond) {
+						sites = append(sites, x.Body)
+					}
+				case *ast.IfStmt:
+					if isPtrTest(x.Cond) {
+						sites = append(sites, x.Body)
+					}
+				case *ast.CaseClause:
+					for _, e := range x.List {
+						if isPtrTest(e) {
+							sites = append(sites, x)
+						}
+					}
+				}
+				return true
+			})
+			k := 0
+			for _, site := range sites {
+				strips := false
+				records := false
+				ast.Inspect(site, func(m ast.Node) bool {
+					switch x := m.(type) {
+					case *ast.CallExpr:
+						if sel, ok := ast.Unparen(x.Fun).(*ast.SelectorExpr); ok && sel.Sel.Name == "Elem" && len(x.Args) == 0 {
+							strips = true
+						}
+					case *ast.AssignStmt:
+						for _, l := range x.Lhs {
+							switch lx := ast.Unparen(l).(type) {
+							case *ast.Ident:
+								if nullVars[info.ObjectOf(lx)] {
+									records = true
+								}
+							case *ast.SelectorExpr:
+								if lx.Sel.Name == "Nullable" {
+									records = true
+								}
+							}
+						}
+					}
+					return true
+				})
+				if !strips {
+					continue
+				}
+				n++
+				k++
+				key := fmt.Sprintf("ptrnull:%s#%d", core.FuncName(d), k)
+				if records {
+					r.OK(key, p.Pos(site.Pos()), "the stripped pointer level is recorded as nullable")
+				} else {
+					r.Bad(key, p.Pos(site.Pos()), fmt.Sprintf("%s steps from the pointer type to its element without recording that the value may be null: the schema it returns for a pointer (here: the reference that closes a type cycle) rejects the `null` encoding/json writes for a nil pointer", core.FuncName(d)))
+				}
+			}
+		}
+		if n == 0 {
+			core.Fail("no pointer-stripping site found in the schema-producing functions of openapi3gen")
 		}
 	})
 }
